@@ -116,6 +116,8 @@ def render(e, syntax='prophy', sp=' '):
             left = '(%s)' % left
         if prec(e.b) <= p:
             right = '(%s)' % right
+        if not sp and right.startswith('-') and e.op in '+-':
+            right = '(%s)' % right       # 'a--b' would be a decrement for the C++ reader of isar expression text
         return '%s%s%s%s%s' % (left, sp, e.op, sp, right)
     raise ValueError(e)
 
